@@ -318,15 +318,20 @@ def obligations(eng, classes, tier):
     obs.append(compare.ensures(eng, f"{PID}.Alarms._repeat.frame", "alarms:Alarms._repeat", source.lines_of(fn["_repeat"]), paths,
                                lambda pa: no_writes(pa, a_self), tmo))
     # ---- add_alarm
+    # every list already holds an arbitrary earlier alarm (any content - it may be EQUAL to the new one): the new alarm is appended all the same
     st = E.State()
     a = SymAlarm(eng, st, "X")
-    lists = {k: st.alloc(E.ListObj([])) for k in ("_absolute_alarms", "_start_alarms", "_end_alarms")}
+    prior = {k: SymAlarm(eng, st, "P" + k[1].upper()) for k in ("_absolute_alarms", "_start_alarms", "_end_alarms")}
+    lists = {k: st.alloc(E.ListObj([prior[k].v])) for k in ("_absolute_alarms", "_start_alarms", "_end_alarms")}
     fields = {k: E.VList(v) for k, v in lists.items()}
     a_self = st.alloc(E.HeapObj("Alarms", fields))
     paths = eng.run(fn["add_alarm"], {"self": E.VObj(a_self), "alarm": a.v}, st)
 
     def c_classify(pa):
         got = {k: pa.state.heap[v].items for k, v in lists.items()}
+        if any(not v or not (isinstance(v[0], E.VMap) and v[0].addr == prior[k].addr) for k, v in got.items()):
+            return z3.BoolVal(False)                  # the earlier alarms stay, in place
+        got = {k: v[1:] for k, v in got.items()}
         lens = {k: len(v) for k, v in got.items()}
         ok_elems = all(isinstance(x, E.VMap) and x.addr == a.addr for v in got.values() for x in v)
         if not ok_elems or sum(lens.values()) > 1:
